@@ -701,7 +701,11 @@ int ILLsymboltab_uname (
 	{
 		i = 0;
 		sprintf (prefix, "%s", try_prefix[0]);
-		numlen = (log10 ((double) (symtab->tablesize - 1) * 10)) + 1;
+		/* room for "_<i>", i <= nvars (log10 of tablesize - 1 is undefined for
+		 * tables with fewer than two entries) */
+		for (numlen = 2, i = nvars; i >= 10; i /= 10)
+			numlen++;
+		i = 0;
 		while (!found)
 		{
 			ILL_FAILfalse (i <= nvars, "something wrong in find_unique_name");
